@@ -1469,7 +1469,8 @@ class StateEngine(object):
             if error_type == "States.TaskFailed":
                 boiler_plate = ""
             elif state_machine_type == "STANDARD":
-                id = len(self.execution_history[execution_arn])
+                # The history may be missing (lost on restart if not persisted)
+                id = len(self.execution_history.get(execution_arn, []))
                 boiler_plate = (
                     "An error occurred while executing the state "
                     "\"{}\" (entered at the event id #{}). "
